@@ -78,7 +78,7 @@ PROPS = {
                       "the user's callables are deterministic uninterpreted functions; unnormalize_vect/normalize_grad/unnormalize_grad are uninterpreted here "
                       "(their arithmetic is proved under C02). Not covered: _preprocess_function (composition of the sequences), sparse Jacobians, tolerance lookup.",
         "design_ref": "DESIGN.md §4 C01",
-        "modules": ["contracts.c01_c03_evaluation"],
+        "modules": ["contracts.c01_c03_evaluation", "contracts.c01_preprocessing"],
         "not_covered": ["EvaluationProblem._preprocess_function", "MDOLinearFunction.normalize", "sparse Jacobian branches", "Database tolerance > 0 lookup"],
     },
     "C03": {
